@@ -12,7 +12,7 @@ PROP = "C18"
 NEED_JSONSCHEMA = True
 SHARDS = {"quick": 8, "thorough": 16}
 TIME_CAP = {"quick": 70, "thorough": 900}
-REQUIRED = ["semantic_comparisons", "vocabulary_walks", "programs", "version:DRAFT_2019_09", "version:DRAFT_7", "version:OPEN_API_3_0", "version:OPEN_API_3_1",
+REQUIRED = ["all_refs_programs", "per_call_schema_programs", "semantic_comparisons", "vocabulary_walks", "programs", "version:DRAFT_2019_09", "version:DRAFT_7", "version:OPEN_API_3_0", "version:OPEN_API_3_1",
             "kw:prefixItems-source", "kw:dependentRequired-source", "kw:const-source", "kw:$defs-source", "kw:type-array-source", "nested_positions_walked", "merged_definitions_walks"]
 RULE = ("program space of C17 (every keyword the builder emits: tuples/prefixItems, const/enum, type arrays, dependentRequired, patternProperties, unevaluatedProperties, "
         "$defs/$ref, anyOf/oneOf/allOf, nested in properties / items / $defs / additionalProperties) x versions {2019-09, draft-07, OpenAPI 3.0, OpenAPI 3.1} x "
@@ -60,6 +60,26 @@ def source_keywords(doc, counter):
     counter["nested_positions_walked"] += n
 
 
+def c06_percall(rng, t):
+    """a per-call schema= fitting the top-level type (None most of the time)"""
+    from apischema import schema as mk_schema
+    from vf.spec import Ann, Coll, MapT, ObjectT, Prim, Ref, strip
+    if rng.random() > 0.3:
+        return None
+    b = strip(t)
+    if isinstance(t, Ann):
+        return None
+    if isinstance(b, Prim) and b.p in ("int", "float"):
+        return mk_schema(min=0)
+    if isinstance(b, Prim) and b.p == "str":
+        return mk_schema(min_len=1)
+    if isinstance(b, Coll) and b.c not in ("set", "absset", "mutset", "frozenset"):
+        return mk_schema(max_items=2)
+    if isinstance(b, (ObjectT, MapT, Ref)):
+        return mk_schema(**rng.choice([{"min_props": 1}, {"max_props": 1}, {"max_props": 2}]))
+    return None
+
+
 def check_program(env, prog, label, ndata):
     from apischema.json_schema import JsonSchemaVersion, definitions_schema, deserialization_schema, serialization_schema
     from vf import jsonschema_o as jo
@@ -75,8 +95,18 @@ def check_program(env, prog, label, ndata):
     for v in valid:
         data += gen_data.mutants(v, rng, atoms, max(2, ndata // 4))
     data = [d for d in data if not has_int_valued_float(d)]
+    # options shared by the 2020-12 reference and the target dialect: extraction of every named type (root emitted as a
+    # reference) and a per-call schema= whose keywords land beside that reference
+    okw = {}
+    if rng.random() < 0.35:
+        okw["all_refs"] = True
+        env.count("all_refs_programs")
+    percall = c06_percall(rng, t)
+    if percall is not None:
+        okw["schema"] = percall
+        env.count("per_call_schema_programs")
     for side, fn in (("deserialization", deserialization_schema), ("serialization", serialization_schema)):
-        o0 = harness.call(fn, prog.T, version=JsonSchemaVersion.DRAFT_2020_12)
+        o0 = harness.call(fn, prog.T, version=JsonSchemaVersion.DRAFT_2020_12, **okw)
         if o0.kind != "ok":
             env.count("inconclusive:2020-12 generation failed (C17)")
             continue
@@ -93,8 +123,8 @@ def check_program(env, prog, label, ndata):
             continue
         for vname, dialect in TARGETS.items():
             version = getattr(JsonSchemaVersion, vname)
-            o = harness.call(fn, prog.T, version=version)
-            wit = {"program": prog.source, "label": label, "entry": side + "_schema", "version": vname}
+            o = harness.call(fn, prog.T, version=version, **okw)
+            wit = {"program": prog.source, "label": label, "entry": side + "_schema", "version": vname, "options": {k: repr(v) for k, v in okw.items()}}
             if o.kind != "ok":
                 env.violation({"kind": "generation-failed", "version": vname, "exc": o.exc, "site": o.site}, {**wit, "outcome": o.brief()})
                 continue
@@ -102,7 +132,7 @@ def check_program(env, prog, label, ndata):
             env.count("version:" + vname)
             ext = None
             if vname.startswith("OPEN_API"):
-                od = harness.call(definitions_schema, **{side: [prog.T]}, version=version)
+                od = harness.call(definitions_schema, **{side: [prog.T]}, version=version, **{k: v for k, v in okw.items() if k == "all_refs"})
                 if od.kind != "ok":
                     env.violation({"kind": "definitions_schema-failed", "version": vname, "exc": od.exc, "site": od.site}, {**wit, "outcome": od.brief()})
                     continue
